@@ -607,11 +607,11 @@ class An(ResultQuantifier[T]):
             # end of the evaluation that pulled from it.
             self._child_._reset_cache_()
             self._child_._eval_parent_ = self
-            values = self._child_._evaluate__(sources, yield_when_false=self._yield_when_false_)
+            values = self._child_._evaluate__(sources, yield_when_false=yield_when_false)
             for value in values:
                 any_yielded = True
                 self._is_false_ = self._child_._is_false_
-                if self._yield_when_false_ or not self._is_false_:
+                if yield_when_false or not self._is_false_:
                     value.update(sources)
                     if self._var_:
                         value.update({self._id_: value[self._var_._id_]})
@@ -660,14 +660,14 @@ class QueryObjectDescriptor(CanBehaveLikeAVariable[T], ABC):
         self._inform_selected_variables_that_they_should_be_inferred_()
         if self._child_:
             self._child_._eval_parent_ = self
-            child_values = self._child_._evaluate__(sources, yield_when_false=self._yield_when_false_)
+            child_values = self._child_._evaluate__(sources, yield_when_false=yield_when_false)
         else:
             child_values = [{}]
         for v in child_values:
             v.update(sources)
             if self._child_:
                 self._is_false_ = self._child_._is_false_
-            if self._is_false_ and not self._yield_when_false_:
+            if self._is_false_ and not yield_when_false:
                 continue
             # a branch can fire for a row that does not bind every variable its conclusions mention (the base failed at a
             # condition before the one that binds it): the conclusions are drawn for each value of such a variable.
@@ -779,7 +779,7 @@ class SetOf(QueryObjectDescriptor[T]):
 
     def _evaluate__(self, sources: Optional[Dict[int, HashedValue]] = None, yield_when_false: bool = False) -> Iterable[Dict[int, HashedValue]]:
         self._yield_when_false_ = yield_when_false
-        sol_gen = self._evaluate_(self.selected_variables, sources, yield_when_false=self._yield_when_false_)
+        sol_gen = self._evaluate_(self.selected_variables, sources, yield_when_false=yield_when_false)
         for sol in sol_gen:
             sol.update(sources)
             if self.selected_variables:
@@ -808,10 +808,10 @@ class Entity(QueryObjectDescriptor[T]):
     def _evaluate__(self, sources: Optional[Dict[int, HashedValue]] = None, yield_when_false: bool = False) -> Iterable[T]:
         self._yield_when_false_ = yield_when_false
         selected_variables = [self.selected_variable] if self.selected_variable else []
-        sol_gen = self._evaluate_(selected_variables, sources, yield_when_false=self._yield_when_false_)
+        sol_gen = self._evaluate_(selected_variables, sources, yield_when_false=yield_when_false)
         for sol in sol_gen:
             sol.update(sources)
-            if self._yield_when_false_ or not self._is_false_:
+            if yield_when_false or not self._is_false_:
                 if self.selected_variable:
                     for var_val in self.selected_variable._evaluate_as_value_(sol):
                         var_val.update(sol)
@@ -958,7 +958,7 @@ class Variable(CanBehaveLikeAVariable[T]):
             if self is self._conditions_root_ or isinstance(self._parent_, LogicalOperator):
                 original_me = self._id_expression_map_[self._id_]
                 self._is_false_ = original_me._is_false_
-                if not original_me._is_false_ or self._yield_when_false_:
+                if not original_me._is_false_ or yield_when_false:
                     yield sources
             else:
                 yield sources
@@ -973,7 +973,7 @@ class Variable(CanBehaveLikeAVariable[T]):
                 yield from self
         elif not self._is_inferred_ and not self._predicate_type_:
             self._update_domain_and_kwargs_expression_()
-            yield from self._evaluate__(sources, yield_when_false=self._yield_when_false_)
+            yield from self._evaluate__(sources, yield_when_false=yield_when_false)
         elif self._child_vars_:
             for kwargs in self._generate_combinations_for_child_vars_values_(sources):
                 yield from self._yield_from_cache_or_instantiate_new_values_(sources, kwargs)
@@ -1675,7 +1675,7 @@ class Comparator(BinaryOperator):
         if self._id_ in sources:
             # the same comparison object occurs a second time in the condition and is bound already (to its result).
             self._is_false_ = not sources[self._id_].value
-            if self._yield_when_false_ or not self._is_false_:
+            if yield_when_false or not self._is_false_:
                 yield sources
             return
 
@@ -1696,7 +1696,7 @@ class Comparator(BinaryOperator):
                 operand_value_map[second_operand._id_] = second_value[second_operand._id_]
                 res = self.apply_operation(operand_value_map)
                 self._is_false_ = not res
-                if res or self._yield_when_false_:
+                if res or yield_when_false:
                     values = copy(first_value)
                     values.update(second_value)
                     values.update(operand_value_map)
@@ -1763,10 +1763,10 @@ class AND(LogicalOperator):
         left_prev = self.left._eval_parent_
         self.left._eval_parent_ = self
         try:
-            left_values = self.left._evaluate__(sources, yield_when_false=self._yield_when_false_)
+            left_values = self.left._evaluate__(sources, yield_when_false=yield_when_false)
             for left_value in left_values:
                 left_value.update(sources)
-                if self._yield_when_false_ and self.left._is_false_:
+                if yield_when_false and self.left._is_false_:
                     self._is_false_ = True
                     if self._is_duplicate_output_(left_value):
                         continue
@@ -1781,7 +1781,7 @@ class AND(LogicalOperator):
                 right_prev = self.right._eval_parent_
                 self.right._eval_parent_ = self
                 try:
-                    right_values = self.right._evaluate__(left_value, yield_when_false=self._yield_when_false_)
+                    right_values = self.right._evaluate__(left_value, yield_when_false=yield_when_false)
 
                     # For the found left value, find all right values,
                     # and yield the (left, right) results found.
@@ -1858,7 +1858,7 @@ class Union(OR):
         left_prev = self.left._eval_parent_
         self.left._eval_parent_ = self
         try:
-            left_values = self.left._evaluate__(sources, yield_when_false=self._yield_when_false_)
+            left_values = self.left._evaluate__(sources, yield_when_false=yield_when_false)
 
             for left_value in left_values:
                 output = copy(sources)
@@ -1866,7 +1866,7 @@ class Union(OR):
                 self.left_evaluated = True
                 self.right_evaluated = False
                 if self.left._is_false_:
-                    if self._yield_when_false_:
+                    if yield_when_false:
                         yield from self.evaluate_right(output)
                     continue
                 if self._is_duplicate_output_(output):
@@ -1929,12 +1929,12 @@ class ElseIf(OR):
                     right_prev = self.right._eval_parent_
                     self.right._eval_parent_ = self
                     try:
-                        right_values = self.right._evaluate__(left_value, yield_when_false=self._yield_when_false_)
+                        right_values = self.right._evaluate__(left_value, yield_when_false=yield_when_false)
                         for right_value in right_values:
                             self._is_false_ = self.right._is_false_
                             output = copy(left_value)
                             output.update(right_value)
-                            if self._is_false_ and not self._yield_when_false_:
+                            if self._is_false_ and not yield_when_false:
                                 continue
                             if not self._is_false_:
                                 if self._is_duplicate_output_(output):
@@ -1954,10 +1954,10 @@ class ElseIf(OR):
                 right_prev = self.right._eval_parent_
                 self.right._eval_parent_ = self
                 try:
-                    right_values = self.right._evaluate__(sources, yield_when_false=self._yield_when_false_)
+                    right_values = self.right._evaluate__(sources, yield_when_false=yield_when_false)
                     for right_value in right_values:
                         self._is_false_ = self.right._is_false_
-                        if self._is_false_ and not self._yield_when_false_:
+                        if self._is_false_ and not yield_when_false:
                             continue
                         self.update_cache(right_value, self.right_cache)
                         yield right_value
